@@ -8,6 +8,7 @@
    every state any history of requests can reach; [gate] is the refusal
    sequence of handleStreamExchange. leaks = false is the current code. *)
 From VR Require Import Model.C16 Proofs.C16.
+From VR Require Model.C04.
 Open Scope N_scope.
 
 (* An accepted exchange continuation whose turn validates returns exactly one data
@@ -15,7 +16,7 @@ Open Scope N_scope.
    batch) is a cursor with a label no cursor had before; that cursor seals the
    post-turn state p+1; exactly one Exchange ran, at the presented position. *)
 Theorem ok_turn_one_data_batch_fresh_cursor : forall leaks i minted o p,
-  gate i minted o = VAccept p -> cancelled o = false -> act_ok (t_act (turn_at i p)) = true ->
+  gate i minted o = VAccept p -> cancelled o = false -> i_prod i = false -> act_ok (t_act (turn_at i p)) = true ->
   let r := fst (handle leaks i minted o) in
   let minted' := snd (handle leaks i minted o) in
   r_status r = 200%Z /\ r_errhdr r = false
@@ -26,6 +27,32 @@ Theorem ok_turn_one_data_batch_fresh_cursor : forall leaks i minted o p,
   /\ r_trace r = [TEx p (insum (o_body o))].
 Proof. exact ok_turn. Qed.
 
+(* Where the cursor is, batch by batch: the response of a validated exchange turn is the logs
+   raised before the Emit, THE data batch, the logs raised after the Emit, in that order; the data
+   batch carries the emit metadata's stream-state values followed by the fresh cursor, and no log
+   batch — before or after — carries any. *)
+Theorem ok_turn_cursor_on_the_data_batch_not_on_a_log : forall leaks i minted o p,
+  gate i minted o = VAccept p -> cancelled o = false -> i_prod i = false -> act_ok (t_act (turn_at i p)) = true ->
+  let r := fst (handle leaks i minted o) in
+  let t := turn_at i p in
+  exists d uc, is_data d = true
+    /\ r_frames r = map (C04.log_frame []) (t_logs t) ++ [d] ++ map (C04.log_frame []) (t_late t)
+    /\ r_curs r = map (fun _ => []) (t_logs t) ++ [uc ++ [VCur (length minted)]] ++ map (fun _ => []) (t_late t).
+Proof. exact ok_turn_order. Qed.
+
+(* A producer continuation (producer batch limit 1): exactly one Produce at the presented position,
+   shown the request metadata minus the framework keys; in the decidable form [spec_produce]: the
+   turn's own batches carry no token, a validated turn has exactly one data batch and is followed by
+   ONE zero-row batch carrying exactly the fresh cursor, a finished or failed turn returns no cursor. *)
+Theorem producer_continuation_one_produce_cursor_on_its_own_batch : forall leaks i minted o p,
+  gate i minted o = VAccept p -> cancelled o = false -> i_prod i = true ->
+  let r := fst (handle leaks i minted o) in
+  spec_produce (turn_at i p) (VCur (length minted)) p r = true
+  /\ r_trace r = [TProd p]
+  /\ r_seen r = Some (seen_prod (filter (fun kv => negb (is_fw (fst kv))) (o_meta o)))
+  /\ learn minted r = snd (handle leaks i minted o).
+Proof. exact producer_turn. Qed.
+
 (* Freshness in terms of token bytes, for every AEAD that opens what it sealed and whose
    ciphertext determines nonce and plaintext (ideal AEAD), nonces never repeated (the
    mint counter stands for crypto/rand): the new cursor opens to the post-turn state
@@ -34,7 +61,7 @@ Theorem fresh_cursor_is_a_new_token : forall (token : Type) (seal : N -> N -> to
   (forall n s, open (seal n s) = Some s) ->
   (forall n s n' s', seal n s = seal n' s' -> n = n' /\ s = s') ->
   forall leaks i minted o p,
-  gate i minted o = VAccept p -> cancelled o = false -> act_ok (t_act (turn_at i p)) = true ->
+  gate i minted o = VAccept p -> cancelled o = false -> i_prod i = false -> act_ok (t_act (turn_at i p)) = true ->
   exists t, wire token seal (snd (handle leaks i minted o)) (length minted) = Some t
     /\ open t = Some (p + 1)
     /\ (forall k t', wire token seal minted k = Some t' -> t <> t').
@@ -44,7 +71,7 @@ Proof. exact ok_turn_token. Qed.
    stream): the error status, exactly one EXCEPTION batch, no cursor anywhere, nothing
    minted — the stream has no continuation. *)
 Theorem failed_turn_error_no_cursor : forall leaks i minted o p,
-  gate i minted o = VAccept p -> cancelled o = false -> act_ok (t_act (turn_at i p)) = false ->
+  gate i minted o = VAccept p -> cancelled o = false -> i_prod i = false -> act_ok (t_act (turn_at i p)) = false ->
   let r := fst (handle leaks i minted o) in
   r_status r = 200%Z /\ r_errhdr r = true
   /\ (exists ty msg, r_frames r = [FExc ty msg [] []])
@@ -74,7 +101,7 @@ Proof. exact refused_turn. Qed.
 (* handler_meta = filter (not framework key) request_meta; on the current code the input
    batch's own metadata is the same list. *)
 Theorem handler_meta_is_request_meta_minus_framework_keys : forall leaks i minted o p,
-  gate i minted o = VAccept p -> cancelled o = false ->
+  gate i minted o = VAccept p -> cancelled o = false -> i_prod i = false ->
   exists s, r_seen (fst (handle leaks i minted o)) = Some s
     /\ sn_meta s = filter (fun kv => negb (is_fw (fst kv))) (o_meta o)
     /\ sn_leak s = false
@@ -109,7 +136,7 @@ Proof. exact no_token_handler. Qed.
    j-1 (the first one presents the newest cursor so far, sealing p) and the turns
    validate, request j runs exactly one Exchange, at position p+j, and returns the
    cursor of p+j+1: s_p, s_p+1, s_p+2, ... each visited exactly once. *)
-Theorem following_cursors_visits_each_state_once : forall leaks i ops pre p,
+Theorem following_cursors_visits_each_state_once : forall leaks i ops, i_prod i = false -> forall pre p,
   follow_all i (length pre) ops -> all_ok i p (length ops) ->
   map r_trace (run leaks i (pre ++ [p]) ops) = visits p ops
   /\ map r_pos (run leaks i (pre ++ [p]) ops) = positions p ops.
@@ -143,12 +170,24 @@ Example user_emit_metadata_shadows_first_match :
     /\ r_curs r = [[VLit (str "user-cursor"); VCur 1]] /\ r_first r = Some (VLit (str "user-cursor")).
 Proof. exact shadow_example. Qed.
 
+(* A log raised AFTER the Emit follows the data batch and carries no cursor; the same response with
+   the cursor on that log batch and none on the data batch is rejected by the decidable property. *)
+Example late_log_follows_data_and_cursor_on_log_is_rejected :
+  spec_ok late_witness (model late_witness) = true
+  /\ (exists r, nth_error (model late_witness) 1 = Some r
+        /\ r_frames r = [FData 1 [6%Z] []; FLog (str "INFO") (str "after-emit") [] []] /\ r_curs r = [[VCur 1]; []])
+  /\ spec_ok late_witness (match model late_witness with r0 :: r1 :: rest => r0 :: cursor_on_log r1 :: rest | l => l end) = false.
+Proof. exact late_log_example. Qed.
+
 (* non-vacuity: an accepted validating turn, a failing turn, a cancel and a refusal exist,
    and a three-request follow-the-cursor history meets its premises *)
 Definition ex_input : input :=
-  {| i_turns := [ {| t_logs := []; t_act := AEmit; t_value := 1; t_meta := []; t_peek := true |};
-                  {| t_logs := []; t_act := ANoEmit; t_value := 0; t_meta := []; t_peek := false |} ];
-     i_cancel := COk; i_cache := false; i_ops := [] |}.
+  {| i_turns := [ {| t_logs := []; t_act := AEmit; t_value := 1; t_meta := []; t_peek := true;
+                     t_late := [ C04.Build_logmsg (str "INFO") (str "late") [] ] |};
+                  {| t_logs := []; t_act := ANoEmit; t_value := 0; t_meta := []; t_peek := false; t_late := [] |} ];
+     i_cancel := COk; i_cache := false; i_ops := []; i_prod := false |}.
+Definition ex_prod : input :=
+  {| i_turns := i_turns ex_input; i_cancel := COk; i_cache := false; i_ops := []; i_prod := true |}.
 Definition ex_op (k : nat) (extra : rmeta) : op :=
   {| o_meta := (str "a", VLit (str "1")) :: (c16_meta_stream_state, VCur k) :: (c16_meta_call_state, VCall) :: extra;
      o_body := BData [5%Z] |}.
@@ -161,5 +200,7 @@ Example premises_satisfiable :
   /\ gate ex_input [0] (ex_op 3 []) = VRefuse exc_runtime_error
   /\ tokens_proper (o_meta (ex_op 0 [])) = true
   /\ follow_all ex_input 0 [ex_op 0 []; ex_op 1 []; ex_op 2 []]
-  /\ all_ok {| i_turns := []; i_cancel := CNone; i_cache := true; i_ops := [] |} 0 3.
+  /\ all_ok {| i_turns := []; i_cancel := CNone; i_cache := true; i_ops := []; i_prod := false |} 0 3
+  /\ i_prod ex_input = false
+  /\ gate ex_prod [1] {| o_meta := o_meta (ex_op 0 []); o_body := BTick |} = VAccept 1 /\ i_prod ex_prod = true.
 Proof. vm_compute. repeat split; auto. Qed.
